@@ -41,6 +41,20 @@ struct World
     bool structural_on_nonleaf = false, cycle_attempt = false, removed_member = false, removed_member_crate = false;
     bool recreated_track = false, nonlast_change = false, diverged_ids = false;
 
+    // A second library of the same schema, open in the same process at the same time, whose crates and tracks carry the SAME ids as the
+    // ones of the library under test but different names and memberships. Operations on it are interleaved with the history; whatever
+    // the library keeps per process rather than per database (static caches keyed by id, shared statements) then shows up as a model
+    // mismatch in either library.
+    struct Decoy
+    {
+        std::optional<dj::database> db;
+        std::vector<dj::crate> crates;
+        std::vector<std::string> names;
+        std::vector<dj::track> tracks;
+        std::set<std::pair<size_t, size_t>> members;  // (crate index, track index)
+        int serial = 0;
+    } decoy;
+
     World(e::engine_schema s, dj::database d) : schema(s), v2(is_v2(s)), db(std::move(d)) {}
 
     std::vector<size_t> live_crates() const
@@ -421,8 +435,98 @@ struct OpResult
 };
 
 // One operation decoded from a record and applied to library and model. Throws vf::Fail on an outcome the property forbids.
+
+// ---- the decoy library (see World::Decoy)
+inline void start_decoy(World& w, S& h, Ctx& ctx)
+{
+    if (h.below(3) != 0)
+        return;
+    auto& d = w.decoy;
+    d.db = e::create_temporary_database(w.schema);
+    for (int i = 0; i < 4; ++i)
+    {
+        std::string name = "decoy-" + std::to_string(i);
+        d.crates.push_back(i == 3 ? d.crates[0].create_sub_crate(name) : d.db->create_root_crate(name));
+        d.names.push_back(name);
+    }
+    for (int i = 0; i < 3; ++i)
+    {
+        dj::track_snapshot snap;
+        snap.relative_path = "decoy/d" + std::to_string(i) + ".mp3";
+        snap.title = "decoy title " + std::to_string(i);
+        d.tracks.push_back(d.db->create_track(snap));
+    }
+    d.crates[0].add_track(d.tracks[0]);
+    d.crates[1].add_track(d.tracks[0]);
+    d.crates[1].add_track(d.tracks[1]);
+    d.members = {{0, 0}, {1, 0}, {1, 1}};
+    w.hist += " | decoy library opened";
+    ctx.label("decoy-library");
+}
+inline void check_decoy(World& w, const std::string& where)
+{
+    auto& d = w.decoy;
+    if (!d.db)
+        return;
+    VF_CHECK(d.db->crates().size() == d.crates.size(), where << ": the second library open in the same process now has " << d.db->crates().size() << " crates, "
+                                                             << d.crates.size() << " were created in it");
+    for (size_t i = 0; i < d.crates.size(); ++i)
+    {
+        VF_CHECK(d.crates[i].is_valid() && d.crates[i].name() == d.names[i],
+                 where << ": crate " << d.crates[i].id() << " of the second library open in the same process reads back as '" << d.crates[i].name() << "', written '" << d.names[i] << "'");
+        std::vector<int64_t> want;
+        for (size_t t = 0; t < d.tracks.size(); ++t)
+            if (d.members.count({i, t}))
+                want.push_back(d.tracks[t].id());
+        auto got = sorted(ids_of(d.crates[i].tracks()));
+        VF_CHECK(got == sorted(want), where << ": tracks(crate " << d.crates[i].id() << ") of the second library open in the same process = " << ids_str(got) << ", expected "
+                                            << ids_str(sorted(want)));
+    }
+    auto p3 = d.crates[3].parent();
+    VF_CHECK(p3 && p3->id() == d.crates[0].id(), where << ": parent of the sub-crate of the second library changed");
+    VF_CHECK(d.db->tracks().size() == d.tracks.size(), where << ": the second library open in the same process has " << d.db->tracks().size() << " tracks");
+}
+inline void decoy_step(World& w, S& s, Ctx& ctx)
+{
+    auto& d = w.decoy;
+    if (!d.db || s.below(4) != 0)
+        return;
+    size_t ci = s.below(d.crates.size()), ti = s.below(d.tracks.size());
+    switch (s.below(5))
+    {
+        case 0:
+            d.names[ci] = "decoy-r" + std::to_string(++d.serial);
+            d.crates[ci].set_name(d.names[ci]);
+            w.hist += " | decoy.rename(" + std::to_string(d.crates[ci].id()) + ")";
+            break;
+        case 1:
+            d.crates[ci].add_track(d.tracks[ti]);
+            d.members.insert({ci, ti});
+            w.hist += " | decoy.add_track(" + std::to_string(d.crates[ci].id()) + "," + std::to_string(d.tracks[ti].id()) + ")";
+            break;
+        case 2:
+            d.crates[ci].remove_track(d.tracks[ti]);
+            d.members.erase({ci, ti});
+            w.hist += " | decoy.remove_track(" + std::to_string(d.crates[ci].id()) + "," + std::to_string(d.tracks[ti].id()) + ")";
+            break;
+        case 3:
+            d.tracks[ti].set_title("decoy title r" + std::to_string(++d.serial));
+            w.hist += " | decoy.set_title(" + std::to_string(d.tracks[ti].id()) + ")";
+            break;
+        default:
+            (void)d.crates[ci].children();
+            (void)d.crates[ci].descendants();
+            (void)d.db->root_crates();
+            w.hist += " | decoy.read(" + std::to_string(d.crates[ci].id()) + ")";
+            break;
+    }
+    ctx.label("decoy-step");
+    check_decoy(w, w.hist);
+}
+
 inline void apply_crate_op(World& w, S& s, Ctx& ctx, int mask)
 {
+    decoy_step(w, s, ctx);
     auto lc = w.live_crates();
     auto lt = w.live_tracks();
     std::vector<int> menu;
@@ -1046,12 +1150,14 @@ inline void prop_c07(const vf::Case& c, Ctx& ctx)
         prelude_deep(w, h, ctx);
         check_forest(w, w.hist);
     }
+    start_decoy(w, h, ctx);
     for (size_t r = 1; r < c.size(); ++r)
     {
         S s(c[r]);
         apply_crate_op(w, s, ctx, OPS_FOREST | OPS_AFTER);
         check_forest(w, w.hist);
     }
+    check_decoy(w, w.hist + " [end]");
     if (w.max_depth >= 3)
         ctx.label("depth>=3");
     ctx.describe = w.hist;
@@ -1317,12 +1423,14 @@ inline void prop_c08(const vf::Case& c, Ctx& ctx)
     World w(schema, e::create_temporary_database(schema));
     w.hist = "schema " + sname(schema);
     prelude(w, h, ctx);
+    start_decoy(w, h, ctx);
     for (size_t r = 1; r < c.size(); ++r)
     {
         S s(c[r]);
         apply_crate_op(w, s, ctx, OPS_MEMBERS);
         check_members(w, w.hist);
     }
+    check_decoy(w, w.hist + " [end]");
     if (w.diverged_ids)
         ctx.label("diverged-ids");
     ctx.describe = w.hist;
@@ -1365,6 +1473,7 @@ inline void prop_c09(const vf::Case& c, Ctx& ctx)
                   " tracks in crate " + std::to_string(w.crates[1].id) + ")";
         check_order(w, w.hist);
     }
+    start_decoy(w, h, ctx);
     for (size_t r = 1; r < c.size(); ++r)
     {
         S s(c[r]);
@@ -1372,6 +1481,7 @@ inline void prop_c09(const vf::Case& c, Ctx& ctx)
         check_order(w, w.hist);
         check_forest(w, w.hist);
     }
+    check_decoy(w, w.hist + " [end]");
     ctx.describe = w.hist;
     ctx.key = w.hist;
     ctx.nontrivial = w.nonlast_change;
